@@ -6,16 +6,16 @@ T = {
     "C01": ("explicit-state", "exhaustive write/end-chunk histories x configurations (incl. chunk sizes, stored sizes and chunk counts on every 7-bit boundary of the integer encoding) x read schedules on the real writer and reader, read back through a descriptor opened between close and free, reference decoder as oracle",
             "Every write history over a tiny alphabet up to a stated depth, every configuration of the tiny universe, medium contents under every listed segmentation, and the zck/unzck tools in-process (split strings at every offset around block edges, option combinations incl. -o/-v/-c, every subset of descriptors 0-2 closed), each checked against an independent spec-derived decoder; termination by per-execution alarm.",
             "Contents outside the block/medium alphabets, histories deeper than the bound and zstd's own behaviour on other data are not covered; the reference decoder (mc/zckref.py, hashlib, libzstd via ctypes) is trusted."),
-    "C02": ("explicit-state", "exhaustive raw and re-sealed structural mutation of small valid files (incl. every mix of the two identifiers, the detached-header identifier on every structural mutant, digest twins and chunk swaps whose digests share a leading 0x00), every truncation, read schedules; implication checked on every mutant",
+    "C02": ("explicit-state", "exhaustive raw and re-sealed structural mutation of small valid files (incl. every mix of the two identifiers, the detached-header identifier on every structural mutant, entries dressed up as empty in one size column, digest twins and chunk swaps whose digests share a leading 0x00), every truncation, read schedules; implication checked on every mutant",
             "All single-bit flips, all 255 substitutions of body bytes, every truncation/extension/indel and every listed re-sealed structural mutant of each base file are read through the real reader; success implies the content equals the base content or the reference decoding of the mutant.",
             "Base files are those of the tiny universe plus one medium file; at most two simultaneous structural deviations; the reference decoder is trusted."),
-    "C03": ("deviation-bounded", "deviation-bounded structure-aware enumeration of correctly sealed headers (1-2 deviating fields), checksum-correct payload mutants, truncations and short files x API call sequences (all singles, all ordered pairs on files that open) and tools under ASan/UBSan with alarms",
+    "C03": ("deviation-bounded", "deviation-bounded structure-aware enumeration of correctly sealed headers (1-2 deviating fields), checksum-correct payload mutants, truncations and short files, bases of every lead length (16- to 64-byte overall digests) x API call sequences (all singles, all ordered pairs on files that open) and tools under ASan/UBSan with alarms",
             "Every sealed header with one (quick) or two (thorough) boundary-valued fields, every truncation, all byte strings of length <= 2, each driven through every public call sequence of depth <= 2 and every tool in a forked child under ASan+UBSan with a hang alarm.",
             "Only the listed boundary values and at most two deviating fields; sanitizer-visible undefined behaviour only; OOM paths excluded."),
-    "C04": ("explicit-state", "exhaustive enumeration of (old file incl. damaged ones, new file, range limit, initial target) over the word universe driving the documented update loop against a reference range server (a new multipart boundary per response), long words that need several multi-range requests, and a connection dropped after every number of body bytes of the first chunk response followed by another round on the same zckDL; thorough: the real zckdl main against a loopback HTTP range server",
+    "C04": ("explicit-state", "exhaustive enumeration of (old file incl. damaged ones, new file, range limit, initial target) over the word universe driving the documented update loop against a reference range server (a new multipart boundary per response), long words that need several multi-range requests, and a connection dropped after every number of body bytes of the first chunk response followed by another round on the same zckDL, the client's own header/write callbacks registered behind the library's; the real zckdl main against a loopback HTTP range server in both tiers; thorough: the real zckdl main against a loopback HTTP range server",
             "All pairs of words up to length 3 (plus no source), compression/dictionary variants, range limits and initial target states run the documented procedure over the public API with a reference server; final bytes and the exact multiset of requested ranges are compared with set arithmetic on the reference chunk table.",
             "Words over a small block alphabet; the in-process reference server (drv/scen_update.c) and the loopback server (mc/httpd.py) are trusted; the real zckdl main is exercised only in the thorough tier."),
-    "C05": ("schedule-bounded", "exhaustive enumeration of all 1-cut and 2-cut partitions of well-formed range responses into callback invocations, all missing-chunk subsets, boundary/header spellings (every RFC 2046 boundary character at start/middle/end), per-chunk corruptions incl. digest twins",
+    "C05": ("schedule-bounded", "exhaustive enumeration of all 1-cut and 2-cut partitions of well-formed range responses into callback invocations, all missing-chunk subsets, boundary/header spellings (every RFC 2046 boundary character at start/middle/end), per-chunk corruptions incl. digest twins, the application's own callbacks chained behind the library's, fwrite-style call shapes (1,n) / (n,1) / (k,n/k), chunks above 32 KiB",
             "Every partition with <= 2 cuts (plus all-1-byte and k-byte pieces) of every response format for every non-empty set of missing chunks is fed to the real callbacks; final file bytes, per-chunk flags and return values must equal the reference reassembler's, and nothing outside the requested extents may change.",
             "Responses of 300-600 bytes, parts in request order, at most two cuts exhaustively."),
     "C06": ("explicit-state", "exhaustive single-byte substitution (all 255 values at every header position), indels with adjusted size field, wrong-recipe digests, bases whose header digest contains 0x00 at byte 0/1/2, and every substitute again under every single allocation failure of the open (allocator seam; plain open, and advanced interface with the failed step retried after zck_clear_error); open verdict on the real reader",
@@ -24,22 +24,22 @@ T = {
     "C07": ("explicit-state", "exhaustive enumeration of pinned (type, digest string, length) combinations, every byte value at every digest-string position, digests differing in several bytes at once (xor/sum-preserving pairs, swaps, rotations), setter orders, options set twice, lead validation repetitions, against a three-line reference model",
             "Every byte value at every position of the digest string, all listed lengths/types/orders and validate-lead repetitions are executed on the real option setters and lead reader and compared with the acceptance model; single-byte header substitutions are re-run under full pinning.",
             "Model covers orders the API accepts; a refused ordering makes no claim."),
-    "C08": ("explicit-state", "exhaustive enumeration of (source damage, target validity subset, copy sequence) over the word universe, re-sealed sources carrying a target chunk's digests with another length, and dictionary pairs with the uncompressed-source flag, on the real copy/matching calls",
+    "C08": ("explicit-state", "exhaustive enumeration of (source damage, target validity subset, copy sequence) over the word universe, re-sealed sources carrying a target chunk's digests with another length, dictionary pairs with the uncompressed-source flag, digest twins, chunks above 32 KiB, ZCK_NO_WRITE set on the target or source context, on the real copy/matching calls",
             "All target words with every subset of chunks pre-valid, all source words with per-chunk damage, truncations and crafted indexes, one or two copy calls; after every call validity flags, extents, untouched bytes and source bytes are compared with reference hashing.",
             "Words up to length 3 over four blocks; at most two sources."),
-    "C09": ("explicit-state", "explicit-state exploration of on-disk states (per-chunk correct/zeroed/flipped/absent, every truncation, reference-written index entries without stored bytes) x validation-call histories on the real scanner",
+    "C09": ("explicit-state", "explicit-state exploration of on-disk states (per-chunk correct/zeroed/flipped/absent, every truncation, reference-written index entries without stored bytes, digest twins, chunks above 32 KiB incl. periodic content) x validation-call histories (incl. partial reads in between) on the real scanner",
             "Every on-disk state of the listed targets and every history of validate-all / validate-data / find-valid up to the depth, followed by a full read, compared with a reference recomputation from the bytes on disk.",
             "Targets of 3-4 chunks; histories up to length 3 (4 thorough)."),
-    "C10": ("explicit-state", "exhaustive enumeration of all 2^N validity markings for N<=10 (12 thorough) chunk tables x range limits, all three-valued (valid/missing/failed) markings of the smaller tables, every ordered pair of markings as two requests on one context; large tables at every string-buffer phase; set arithmetic oracle",
+    "C10": ("explicit-state", "exhaustive enumeration of all 2^N validity markings for N<=10 (12 thorough) chunk tables x range limits, all three-valued (valid/missing/failed) markings of the smaller tables, every ordered pair of markings as two requests on one context, every table also seen through its detached header; large tables at every string-buffer phase; set arithmetic oracle",
             "All markings (produced through the public scan flow) of all chunk tables up to N chunks and all listed limits are given to the real range builder and renderer and compared with set arithmetic; large tables sweep every alignment across the buffer growth thresholds.",
             "N <= 10 (12) exhaustively; larger tables only in the alternating family; for failed chunks both readings (left out / requested) are accepted."),
-    "C11": ("crash-point exhaustive", "explicit-state BFS over target-file states reached by killing the update at every write/ftruncate and at every byte count inside each write, resumed with fresh contexts",
+    "C11": ("crash-point exhaustive", "explicit-state BFS over target-file states reached by killing the update at every write/ftruncate and at every byte count inside each write, resumed with fresh contexts (incl. files with the uncompressed-source flag resumed without the old file, and chunks above two scan buffers with periodic content killed around every 4 KiB step)",
             "Every kill point (every system call, every byte offset) of each update scenario is executed via the link-time seam; every reached on-disk state is resumed to completion and, to depth 2 for selected scenarios, killed again.",
             "Process kill, not power loss; scenarios are the listed small pairs."),
     "C12": ("deviation-bounded", "deviation-bounded exploration of environment answers: every single fault (EIO/ENOSPC/EINTR/short count) at every read/write/lseek of each scenario (writer, reader, validations, chunk requests, copy, update, tools), all pairs for short scenarios",
             "A fault-free run records N environment calls; then every call x every alternative answer is executed (all pairs thorough) through the link-time seam, and a reported success is compared with what really reached the descriptors.",
             "Faults limited to the listed errno values and short counts; at most two faults per execution."),
-    "C13": ("explicit-state", "exhaustive enumeration of headers the reference writer can emit within the stated field domains (incl. running sums placed on every 2^63 / 2^64 limit) and their re-sealed field mutations, getter dump compared with the reference parser; the open repeated under every single allocation failure (allocator seam) must refuse or report the same",
+    "C13": ("explicit-state", "exhaustive enumeration of headers the reference writer can emit within the stated field domains (incl. running sums placed on every 2^63 / 2^64 limit) and their re-sealed field mutations, getter dump compared with the reference parser; the open repeated under every single allocation failure (allocator seam) must refuse or report the same; the zck_read_header tool under every subset of -c -q -f -v, printed fields and chunk rows against the reference parser",
             "Every header in the stated product of digests, flags, optional elements and boundary sizes, plus re-sealed count/width/overflow mutations, is opened by the real reader; on success every getter and the chunk iteration must equal the reference parser, and malformed headers must be refused.",
             "Field values from the listed boundary sets; up to 4 chunks."),
     "C14": ("explicit-state", "exhaustive enumeration of all chunk-request sequences up to length 4 (5 thorough) over every chunk incl. dictionary and last, and of sequences over the alphabet extended by history operations on the same context (sequential reads, scans, half-buffer requests); state = history replayed on a fresh context",
@@ -51,7 +51,7 @@ T = {
     "C16": ("explicit-state", "exhaustive 1-cut and boundary-neighbourhood 2-cut write segmentations, edits at every boundary neighbourhood, rolling-hash hit windows placed at every offset around the effective minimum and maximum; byte-identity, chunk-locality and size-bound oracle",
             "The same content delivered whole, with every single cut position, every cut pair near chunk boundaries and the k-byte schedules must give byte-identical files; edits at every listed position must leave chunks before and after the edit region identical.",
             "Contents of the medium generator families; rolling-hash behaviour on other data not covered."),
-    "C17": ("deviation-bounded", "deviation-bounded enumeration of malformed header lines (incl. a grammar product of the boundary parameter) and response bodies (<=2 deviations from well-formed, every truncation, all byte strings of length <=2) x fragmentations under ASan/UBSan",
+    "C17": ("deviation-bounded", "deviation-bounded enumeration of malformed header lines (incl. a grammar product of the boundary parameter) and response bodies (<=2 deviations from well-formed, every truncation, all byte strings of length <=2) x fragmentations, and pairs of responses on one zckDL with every client action in between (nothing, range set again, reset, reset without range), under ASan/UBSan",
             "Every listed header line, every body within two deviations of a well-formed response, every truncation and fragmentation is fed to the real callbacks in forked children under sanitizers; confinement and verified-validity are checked on the target afterwards.",
             "The deviation menu is finite; sanitizer-visible undefined behaviour only."),
     "C18": ("explicit-state", "exhaustive message lengths 0..300 (600 thorough) x every split point (all split pairs at padding edges) x content families on both hash backends, three-way comparison with CPython's built-in SHA",
